@@ -5,6 +5,7 @@
 package main
 
 import (
+	"time"
 	"bufio"
 	"encoding/json"
 	"fmt"
@@ -42,6 +43,7 @@ type Step struct {
 type Scenario struct {
 	Steps []Step `json:"steps"`
 	Real  bool   `json:"real"` // real timers (smoke mode): ticks sleep instead of flushing
+	Stall bool   `json:"stall"` // real timers, and the process is suspended for a quarter of a second while it opens a store
 }
 
 type Result struct {
@@ -199,7 +201,108 @@ func (w *world) checkRows(db string, want []int) []string {
 	return v
 }
 
+// stalled: USE and CREATE DATABASE with the real flush timers while the process is held up for 260 ms (two and a half
+// timer periods) right after a store was set up. Whatever USE pattern and pause: every database keeps its rows.
+func stalled() (res Result) {
+	res.OK, res.Kind = true, "stall"
+	os.RemoveAll("data")
+	storage.VerifForgetStores()
+	storage.VerifAutoFlushDefault()
+	storage.VerifSetCaps(0, 0)
+	defer storage.VerifAutoFlushOff()
+	defer storage.VerifStallStoreOpen(0)
+	if err := storage.InitStorage(); err != nil {
+		return Result{OK: false, Notes: []string{"setup: " + err.Error()}, Kind: "infra"}
+	}
+	w := &world{sess: &engine.Session{}, maxID: map[string]uint32{}, seen: map[string]map[uint32]bool{}}
+	fail := func(msg string) Result {
+		res.OK = false
+		res.Viol = append(res.Viol, msg)
+		return res
+	}
+	run := func(qs ...string) string {
+		for _, q := range qs {
+			if err, p := w.exec(q); err != nil || p {
+				return fmt.Sprintf("`%s` failed: %v", q, err)
+			}
+		}
+		return ""
+	}
+	count := func(db string, want int) string {
+		stmt, _ := parse("SELECT * FROM t")
+		var rows []*storage.Row
+		var err error
+		func() {
+			defer func() {
+				if r := recover(); r != nil {
+					err = fmt.Errorf("panic: %v", r)
+				}
+			}()
+			rows, _, err = engine.EvaluateSelect(stmt.(sql.Select), w.sess.RelationService)
+		}()
+		if err != nil {
+			return fmt.Sprintf("database %s: SELECT * FROM t failed: %v", db, err)
+		}
+		if len(rows) != want {
+			return fmt.Sprintf("database %s: t holds %d rows, %d were written", db, len(rows), want)
+		}
+		return ""
+	}
+	if m := run("CREATE DATABASE a", "USE a", "CREATE TABLE t (a INT, b VARCHAR(8))", "INSERT INTO t (a, b) VALUES (1, 'a1'), (2, 'a2'), (3, 'a3')",
+		"CREATE DATABASE b", "USE b", "CREATE TABLE t (a INT, b VARCHAR(8))", "INSERT INTO t (a, b) VALUES (1, 'b1')"); m != "" {
+		return Result{OK: false, Notes: []string{"setup: " + m}, Kind: "infra"}
+	}
+	storage.VerifStallStoreOpen(260 * time.Millisecond)
+	if m := run("USE a"); m != "" {
+		return fail("with the process held up while the store is opened: " + m)
+	}
+	if m := count("a", 3); m != "" {
+		return fail("after a USE during which the process was held up for 260 ms: " + m)
+	}
+	if m := run("INSERT INTO t (a, b) VALUES (4, 'a4')", "CREATE DATABASE c", "USE c", "CREATE TABLE t (a INT, b VARCHAR(8))", "INSERT INTO t (a, b) VALUES (1, 'c1'), (2, 'c2')", "USE b"); m != "" {
+		return fail("with the process held up while stores are opened: " + m)
+	}
+	if m := count("b", 1); m != "" {
+		return fail("after a USE during which the process was held up for 260 ms: " + m)
+	}
+	storage.VerifStallStoreOpen(0)
+	for _, x := range []struct {
+		db string
+		n  int
+	}{{"a", 4}, {"c", 2}, {"b", 1}} {
+		if m := run("USE " + x.db); m != "" {
+			return fail(m)
+		}
+		if m := count(x.db, x.n); m != "" {
+			return fail(m)
+		}
+	}
+	if err := w.sess.Close(); err != nil {
+		return fail("Close failed: " + err.Error())
+	}
+	if err := storage.InitStorage(); err != nil {
+		return fail("restart: storage does not start: " + err.Error())
+	}
+	w.sess = &engine.Session{}
+	for _, x := range []struct {
+		db string
+		n  int
+	}{{"a", 4}, {"b", 1}, {"c", 2}} {
+		if m := run("USE " + x.db); m != "" {
+			return fail("after the restart: " + m)
+		}
+		if m := count(x.db, x.n); m != "" {
+			return fail("after the restart: " + m)
+		}
+	}
+	w.sess.Close()
+	return res
+}
+
 func replay(sc Scenario) (res Result) {
+	if sc.Stall {
+		return stalled()
+	}
 	res.OK = true
 	os.RemoveAll("data")
 	storage.VerifForgetStores()
